@@ -43,9 +43,19 @@ func rangeSet(r yang.YangRange) numref.Set {
 }
 
 // Type converts a resolved YangType.
-func Type(y *yang.YangType) *yref.XType {
+func Type(y *yang.YangType) *yref.XType { return typeAt(y, 0) }
+
+// maxUnionDepth: union members are written out to this depth of nesting. The members of a union typedef are
+// shared by everything derived from it, so a chain of n union typedefs with two members each would be written
+// out 2^n times (the generators of valid schemas stay far below this depth; the hostile ones do not).
+const maxUnionDepth = 8
+
+func typeAt(y *yang.YangType, depth int) *yref.XType {
 	if y == nil {
 		return nil
+	}
+	if depth > maxUnionDepth {
+		return &yref.XType{Kind: yang.TypeKindToName[y.Kind], Name: y.Name + " (members below this depth are not written out)"}
 	}
 	x := &yref.XType{
 		Kind:           yang.TypeKindToName[y.Kind],
@@ -79,7 +89,7 @@ func Type(y *yang.YangType) *yref.XType {
 		}
 	}
 	for _, u := range y.Type {
-		x.Union = append(x.Union, Type(u))
+		x.Union = append(x.Union, typeAt(u, depth+1))
 	}
 	return x
 }
